@@ -3,6 +3,8 @@ package main
 import (
 	"bytes"
 	"fmt"
+	"math"
+	"math/big"
 	"sort"
 	"strings"
 	"time"
@@ -124,6 +126,14 @@ func streamC10(c *Ctx) {
 		map[string]interface{}{"a": nil}, map[string]interface{}{"a": int64(1)}, map[string]interface{}{"a": int64(1), "b": int64(2)},
 		[]interface{}{int64(1)}, []interface{}{int64(1), int64(2)}, []interface{}{float64(1)}, []interface{}{"a"})
 
+	// one representative of every type inside an array and inside an object, so that every pair of types meets at the
+	// same position of two containers (the element type tags of container keys must order like Compare does)
+	for _, rep := range []interface{}{nil, int64(5), uint64(7), float64(2.5), "x", map[string]interface{}{"a": int64(3)}, []interface{}{int64(5)}, false, true,
+		time.Unix(1700000000, 0).UTC(), time.Unix(3, 5).UTC()} {
+		pool = append(pool, []interface{}{rep}, map[string]interface{}{"a": rep}, []interface{}{int64(1), rep}, map[string]interface{}{"a": []interface{}{rep}})
+	}
+
+	modelOff := false
 	keys := make([]string, len(pool))
 	for i, v := range pool {
 		k, err := implKey(v)
@@ -134,10 +144,11 @@ func streamC10(c *Ctx) {
 		keys[i] = k
 		mk := dr.Ask(J{"k": "key", "v": encValue(v)})
 		c.Evals++
-		if mk != hx(k) {
-			// correspondence break on key bytes: decide below whether the property itself fails
+		if mk != hx(k) && !modelOff {
+			// correspondence break on key bytes: recorded once; the run goes on with the property's own laws (order of
+			// Compare by numeric value and type rank, key order = Compare order), which decide whether the property fails
 			c.Unexplained(&Replay{Stream: "key", Case: []interface{}{J{"k": "key", "v": encValue(v)}}, Expected: []string{mk}, Actual: []string{hx(k)}}, "correspondence K-C10/key")
-			return
+			modelOff = true
 		}
 	}
 
@@ -156,11 +167,18 @@ func streamC10(c *Ctx) {
 			c.Violation(&Replay{Stream: "cmp", Case: []interface{}{line}, Expected: []string{"sign(Compare(a,b)) = -sign(Compare(b,a))"}, Actual: []string{fmt.Sprint(ia, ib)}, Note: "antisymmetry"})
 			return false
 		}
-		if inDom {
+		// the property's own statement, without the model: types rank nil < number < string < object < array < bool < time,
+		// and numbers compare by numeric value across int64 / uint64 / float64 (exact rational comparison)
+		if want, known := c10Direct(a, b); known && inDom && ia != want {
+			c.Violation(&Replay{Stream: "cmp", Case: []interface{}{line}, Expected: []string{fmt.Sprint(want)}, Actual: []string{fmt.Sprint(ia)},
+				Note: "Compare does not order by type rank (nil < number < string < object < array < bool < time) / by numeric value"})
+			return false
+		}
+		if inDom && !modelOff {
 			m := dr.Ask(line)
 			if m != fmt.Sprint(ia) {
 				c.Unexplained(&Replay{Stream: "cmp", Case: []interface{}{line}, Expected: []string{m}, Actual: []string{fmt.Sprint(ia)}}, "correspondence K-C10/cmp")
-				return false
+				modelOff = true
 			}
 		}
 		if inDom && c10KeyDomain(a) && c10KeyDomain(b) {
@@ -383,4 +401,70 @@ func c10ThroughIndex(c *Ctx, g *Gen) {
 		}
 		im.Destroy()
 	}
+}
+
+// c10Direct: what C10 itself says about a pair, where it says it without recursion: different type ranks, or two numbers.
+func c10Direct(a, b interface{}) (int, bool) {
+	rank := func(v interface{}) int {
+		switch v.(type) {
+		case nil:
+			return 0
+		case int64, uint64, float64:
+			return 1
+		case string:
+			return 2
+		case map[string]interface{}:
+			return 3
+		case []interface{}:
+			return 4
+		case bool:
+			return 5
+		case time.Time:
+			return 6
+		}
+		return -1
+	}
+	ra, rb := rank(a), rank(b)
+	if ra < 0 || rb < 0 {
+		return 0, false
+	}
+	if ra != rb {
+		return sign(ra - rb), true
+	}
+	if ra != 1 {
+		return 0, false
+	}
+	rat := func(v interface{}) *big.Rat {
+		switch x := v.(type) {
+		case int64:
+			return new(big.Rat).SetInt64(x)
+		case uint64:
+			return new(big.Rat).SetInt(new(big.Int).SetUint64(x))
+		case float64:
+			if math.IsInf(x, 0) || math.IsNaN(x) {
+				return nil
+			}
+			return new(big.Rat).SetFloat64(x)
+		}
+		return nil
+	}
+	x, y := rat(a), rat(b)
+	if x == nil || y == nil {
+		fa, aok := a.(float64)
+		fb, bok := b.(float64)
+		switch {
+		case aok && math.IsInf(fa, 1), bok && math.IsInf(fb, -1):
+			if aok && bok && fa == fb {
+				return 0, true
+			}
+			return 1, true
+		case aok && math.IsInf(fa, -1), bok && math.IsInf(fb, 1):
+			if aok && bok && fa == fb {
+				return 0, true
+			}
+			return -1, true
+		}
+		return 0, false
+	}
+	return x.Cmp(y), true
 }
